@@ -31,6 +31,16 @@ def configs(tier: str):
                                 out.append(default_cfg(N=N, B=B, errors=errors, failures=failures, cfe=cfe, t=t,
                                                        offset=offset, finite=False, faults=faults, hook_faults=hooks, post_write=hooks,
                                                        witness_rate=0.01 if tier == 'quick' else 0.03))
+    # a pre-solution hook that WRITES a check variable (any Float64, non-finite included): the policies are applied to the
+    # values the passes produce, measured from the values the period held on entry
+    for errors in ('raise', 'skip', 'ignore', 'replace'):
+        for failures in ('raise', 'ignore'):
+            for B in (1, 2) if tier == 'quick' else (0, 1, 2, 3):
+                for N in (1, 2):
+                    if tier == 'quick' and (N == 2 and B == 2 or failures == 'ignore' and errors in ('ignore', 'replace')):
+                        continue
+                    out.append(default_cfg(N=N, B=B, errors=errors, failures=failures, t=1, offset='zero', finite=False, pre_write=True,
+                                           post_write=True))
     # ARBITRARY PRE-STATE / HISTORIES: a period that already carries a status ('.' from an earlier solve, 'E', 'S', 'F')
     # may hold non-finite values written since; the policies apply to what is there now, not to what the status suggests
     for errors in ('raise', 'skip', 'ignore', 'replace'):
